@@ -1,4 +1,4 @@
-(* C17 — sells before buys: batch ordering and time priority. Statements only; for EVERY decision function (both exchanges) and every batch size. The sort of the buffer is an oracle argument `perm`; the theorems hold for every perm the model accepts (a permutation of the buffer whose result has every sell-side order before every buy-side order). What is proved about the standard library's sort_by itself is in Props/C17sort.v when present; otherwise that specification is validated by test on every run. *)
+(* C17 — sells before buys: batch ordering and time priority. Statements only; for EVERY decision function (both exchanges) and every batch size. The sort of the buffer is an oracle argument `perm`; the theorems hold for every perm the model accepts (a permutation of the buffer whose result has every sell-side order before every buy-side order). Props/C17sort.v removes the oracle: the standard library's stable sort is modelled exactly and proved to satisfy that specification for the exchanges' comparator. *)
 From Coq Require Import ZArith NArith List Bool String Permutation Sorted Floats.
 From Alator Require Import Model.Num Model.Quirks Model.Exchange Model.Uist Model.Jura Model.Server
   Proofs.ListAux Proofs.ExchangeProofs Proofs.UistProofs Proofs.JuraProofs Proofs.ExchangeCorollaries
